@@ -23,7 +23,7 @@ def run(patch, tier="quick"):
         if p.returncode != 0:
             return {"error": "patch failed: " + p.stdout + p.stderr}
         env = dict(os.environ, CHMPY_VERIF_SRC=os.path.join(scratch, "src"),
-                   CHMPY_VERIF_REPLAYS=os.path.join(scratch, "replays"))
+                   CHMPY_VERIF_REPLAYS=os.path.join(scratch, "replays"), VERIF_STOP_EARLY="1")
         t = time.time()
         p = subprocess.run([sys.executable, CHECK, "--tier", tier, "--no-evidence"], env=env, capture_output=True, text=True)
         lines = [l for l in p.stdout.splitlines() if l.startswith("violation:")]
